@@ -32,25 +32,27 @@ deriving DecidableEq, Repr, Inhabited
 /-! ### the walk -/
 
 /-- one visit of the walkers: the node, its parent and grandparent (`DynamicChild.parent`,
-    `AnnotatedNode.parent`), its index among the parent's children and the parent's index
-    among the grandparent's children (the last two are ghost fields used by specifications only) -/
+    `AnnotatedNode.parent`); ghost fields used by specifications only: its index among the parent's
+    children, the parent's index among the grandparent's children, and the index of the top-level
+    declaration of the file it belongs to -/
 structure Ev where
   node : Tree
   parent : Option Tree := none
   gparent : Option Tree := none
   idx : Nat := 0
   pidx : Nat := 0
+  item : Nat := 0
 deriving Repr, Inhabited
 
 mutual
 /-- `AstWalker::visit` / `AnnotatedAstWalkerPreOrder::walk_tree`: node first, then its children in order -/
-def walk (gp p : Option Tree) (pi i : Nat) : Tree → List Ev
-  | .leaf t => [⟨.leaf t, p, gp, i, pi⟩]
+def walk (gp p : Option Tree) (pi i it : Nat) : Tree → List Ev
+  | .leaf t => [⟨.leaf t, p, gp, i, pi, it⟩]
   | .node k id r s a kids =>
-    ⟨.node k id r s a kids, p, gp, i, pi⟩ :: walkL p (some (.node k id r s a kids)) i 0 kids
-def walkL (gp p : Option Tree) (pi i : Nat) : List Tree → List Ev
+    ⟨.node k id r s a kids, p, gp, i, pi, it⟩ :: walkL p (some (.node k id r s a kids)) i 0 it kids
+def walkL (gp p : Option Tree) (pi i it : Nat) : List Tree → List Ev
   | [] => []
-  | t :: ts => walk gp p pi i t ++ walkL gp p pi (i + 1) ts
+  | t :: ts => walk gp p pi i it t ++ walkL gp p pi (i + 1) it ts
 end
 
 /-- the analyzers look at a parent only through its kind, attributes, identifier and first child;
@@ -58,11 +60,16 @@ end
     which makes the events of a file the concatenation of the events of its top-level items -/
 def rootStub : Tree := .node "root" "" Range.zero Range.zero [] []
 
+/-- the top-level declarations one after the other, `it` = index of the declaration -/
+def walkTop (it : Nat) : List Tree → List Ev
+  | [] => []
+  | t :: ts => walk none (some rootStub) 0 it it t ++ walkTop (it + 1) ts
+
 /-- `AstWalker::run`: the children of the root, pre-order -/
-def fileEvents (items : List Tree) : List Ev := walkL none (some rootStub) 0 0 items
+def fileEvents (items : List Tree) : List Ev := walkTop 0 items
 
 /-- the annotated walker also visits the root itself -/
-def rootEv : Ev := ⟨rootStub, none, none, 0, 0⟩
+def rootEv : Ev := ⟨rootStub, none, none, 0, 0, 0⟩
 
 /-! ### generic machine -/
 
